@@ -386,7 +386,7 @@ def main(tier):
             run.inconclusive_because("positive control: gcc rejected a valid kernel under the published header")
     finally:
         rm_tree(wd)
-    run_shards(run, "c08", 12 if tier == "quick" else 16, timeout_s=1200 if tier == "quick" else 6 * 3600)
+    run_shards(run, "c08", 12 if tier == "quick" else 16, timeout_s=3600 if tier == "quick" else 6 * 3600)
     c = run.counters
     if c.get("code_produced", 0) < 1500 or c.get("c_modules_syntax_checked", 0) < 800 or c.get("llvm_modules_verified", 0) < 300:
         run.inconclusive_because("too little code was produced and checked")
